@@ -125,7 +125,7 @@ PROPS['C09'] = dict(
 
 def cli(entry, pkgs=2, **kw):
     return spec(entry, pkg=MAIN_PKG, overlay='harness/main', overlay2=[('harness/wire', WIRE_PKG)],
-                interp=['errors', WIRE_PKG, 'go/types', 'golang.org/x/tools/go/types/typeutil', 'go/token', 'go/ast'], params=dict(pkgs=pkgs),
+                interp=['errors', 'io', WIRE_PKG, 'go/types', 'golang.org/x/tools/go/types/typeutil', 'go/token', 'go/ast'], params=dict(pkgs=pkgs),
                 label='%s[pkgs<=%d]' % (entry, pkgs), replayable=False, **kw)
 
 
